@@ -17,7 +17,7 @@ import (
 // Looks for <template #slotname> or <template v-slot:slotname> elements and returns
 // a SlotScope with their content ready for use.
 // This is called during template parsing to preserve slot structure before rendering.
-func extractSlotsFromDOM(nodes []*html.Node) *SlotScope {
+func extractSlotsFromDOM(nodes []*html.Node, isComponentTag func(tag string) bool) *SlotScope {
 	slotScope := NewSlotScope()
 
 	var walk func(*html.Node)
@@ -52,6 +52,12 @@ func extractSlotsFromDOM(nodes []*html.Node) *SlotScope {
 			}
 		}
 
+		// Slot templates written inside an include tag belong to that component instance,
+		// not to the layout: do not descend into includes.
+		if n.Type == html.ElementNode && ((n.Data == "template" && hasIncludeAttr(n)) || (isComponentTag != nil && isComponentTag(n.Data))) {
+			return
+		}
+
 		// Traverse children
 		for c := n.FirstChild; c != nil; c = c.NextSibling {
 			walk(c)
@@ -63,6 +69,16 @@ func extractSlotsFromDOM(nodes []*html.Node) *SlotScope {
 	}
 
 	return slotScope
+}
+
+// hasIncludeAttr reports whether n carries an include attribute.
+func hasIncludeAttr(n *html.Node) bool {
+	for _, attr := range n.Attr {
+		if attr.Key == "include" {
+			return true
+		}
+	}
+	return false
 }
 
 // resolveLayoutPath resolves a layout name to a file path.
@@ -125,7 +141,10 @@ func (t *template) layout(ctx context.Context, w io.Writer) error {
 			// Parse the template bytes to get DOM nodes
 			templateNodes, err := parser.ParseTemplateBytes(tpl.templateBytes)
 			if err == nil {
-				inheritedSlotScope = extractSlotsFromDOM(templateNodes)
+				inheritedSlotScope = extractSlotsFromDOM(templateNodes, func(tag string) bool {
+					_, ok := t.vue.GetComponentFile(tag)
+					return ok
+				})
 			}
 		}
 
